@@ -90,8 +90,26 @@ def search(ctx, hints):
                 stats = {}
         elif line.startswith('SAMPLE ') and len(samples) < 4:
             samples.append(dict(probe=line[7:300]))
+    race_note = None
+    if ctx.thorough():
+        # concurrency evidence (not proof): the history / concurrency probe under the race detector
+        rb, rlog = vlib.go_build(ctx, vlib.HARNESS, './cmd/c12', 'c12race', race=True)
+        if rb:
+            cwd2 = ctx.scratch('c12race')
+            rc2, so2, se2 = vlib.run([rb, 'mode=history', 'n=2'], cwd=cwd2, env=dict(env, GORACE='halt_on_error=1'), timeout=1200)
+            shutil.rmtree(cwd2, ignore_errors=True)
+            for line in so2.split('\n'):
+                if line.startswith('VIOL '):
+                    v = json.loads(line[5:])
+                    viol.append(dict(key=v.get('key'), desc=v.get('desc'), replay=v.get('replay')))
+            if 'DATA RACE' in se2 or rc2 == 66:
+                viol.append(dict(key='race:evm-on-distinct-states', desc='race detector report while EVMs ran on distinct AccountDBs: ' + se2[-1500:],
+                                 replay=dict(cmd='go build -race ./cmd/c12 && c12race mode=history')))
+            race_note = 'race build ran mode=history n=2: rc=%d' % rc2
+        else:
+            race_note = 'race build failed: ' + rlog[-300:]
     res = dict(evaluations=stats.get('probes', 0), distinct_nontrivial=stats.get('distinct', 0),
-               violations=viol, samples=samples, stats=stats)
+               violations=viol, samples=samples, stats=stats, concurrency_evidence=race_note)
     if rc != 0:
         res['error'] = 'searcher exited %d: %s' % (rc, (se or so)[-600:])
     return res
